@@ -74,11 +74,14 @@ def _worker_classes():
     class HWorker(FunctorWorker):
         """The repository's worker with logging begin / functor / end; everything else is inherited."""
 
-        def __init__(self, shared, quota=math.inf, fault=None, serial=0):
+        def __init__(self, shared, quota=math.inf, fault=None, serial=0, end_delay=0, begin_delay=0):
             super().__init__(max_chunks_per_worker=quota)
             self.sh = shared
             self.fault = fault      # None | ("begin",) | ("item", call, idx)
             self.serial = serial    # n-th worker object created for this pool
+            self.end_delay = end_delay
+            self.begin_delay = begin_delay
+            self.items_done = 0
 
         def run(self):
             instr.reset_for_child(f"worker{self.wid}")
@@ -86,6 +89,8 @@ def _worker_classes():
 
         def begin(self):
             self.sh.log("begin_enter", wid=self.wid, serial=self.serial)
+            if self.begin_delay:
+                self.sh.nap(self.begin_delay)      # a slow begin(): until_all_ready() has something to wait for
             if self.fault and self.fault[0] == "begin":
                 self.sh.log("begin_raise", wid=self.wid)
                 raise RuntimeError("injected fault in begin()")
@@ -93,6 +98,7 @@ def _worker_classes():
 
         def __call__(self, x):
             call, idx, dur = x[:3]
+            self.items_done += 1
             self.sh.log("item", wid=self.wid, call=call, idx=idx)
             if self.fault and self.fault[0] == "item" and self.fault[1] == call and self.fault[2] == idx:
                 self.sh.log("item_raise", wid=self.wid, call=call, idx=idx)
@@ -103,17 +109,22 @@ def _worker_classes():
 
         def end(self):
             self.sh.log("end_enter", wid=self.wid)
+            if self.end_delay and self.items_done:
+                self.sh.nap(self.end_delay)        # a slow end(): whoever forgets to join this worker is caught
             self.sh.log("end_exit", wid=self.wid)
 
     class HFactory(FunctorWorkerFactory):
-        def __init__(self, shared, quota, faults):
+        def __init__(self, shared, quota, faults, end_delay=0, begin_delay=0):
             self.sh = shared
             self.quota = quota
             self.faults = faults or {}   # serial -> fault
             self.created = 0
+            self.end_delay = end_delay
+            self.begin_delay = begin_delay
 
         def create(self):
-            w = HWorker(self.sh, self.quota, self.faults.get(self.created), self.created)
+            w = HWorker(self.sh, self.quota, self.faults.get(self.created), self.created, self.end_delay,
+                        self.begin_delay if self.created % 2 == 0 else 0)
             self.created += 1
             return w
 
@@ -369,6 +380,8 @@ def run_case_here(case, outpath, scratch):
         plan[(role, qn, rel, occ)] = (kind, arg)
     instr.start_case(plan=plan, trace=True, sleeping=sh.sleeping, progress=sh.progress,
                      yield_every=case.get("yield_every", 0))
+    if case.get("instr_hooks"):
+        instr.enable_instruction_hooks(set(case["instr_hooks"]))
     wd = Watchdog(sh, QUIET_S[tier], outpath, state)
     wd.start()
 
@@ -379,10 +392,12 @@ def run_case_here(case, outpath, scratch):
         quota = case.get("quota") or math.inf
         faults = {int(k): tuple(v) for k, v in (case.get("faults") or {}).items()}
         if case["pool"] == "factory":
-            pool = opp.FactoryFunctorPool(case["workers"], HFactory(sh, quota, faults), context=ctx,
+            pool = opp.FactoryFunctorPool(case["workers"], HFactory(sh, quota, faults, case.get("end_delay", 0),
+                                                                    case.get("begin_delay", 0)), context=ctx,
                                           work_queue_maxsize=wq, results_queue_maxsize=rq)
         else:
-            workers = [HWorker(sh, math.inf, faults.get(i), i) for i in range(case["workers"])]
+            workers = [HWorker(sh, math.inf, faults.get(i), i, case.get("end_delay", 0),
+                               case.get("begin_delay", 0) if i % 2 == 0 else 0) for i in range(case["workers"])]
             pool = opp.FunctorPool(workers, context=ctx, work_queue_maxsize=wq, results_queue_maxsize=rq)
         state["pool"] = pool
         state["phase"] = "pool_enter"
@@ -786,6 +801,14 @@ def lifecycle_findings(case, result):
                                 f"until_all_ready() returned (seq {first_ready['seq']}) before begin() of worker pid "
                                 f"{pid} completed"))
     if completed:
+        exit_ret = next((e["seq"] for e in ev if e["ev"] == "pool_exit_return"), None)
+        if exit_ret is not None:
+            for pid, es in by_pid.items():
+                ends = [e["seq"] for e in es if e["ev"] == "end_exit"]
+                if any(e["ev"] == "begin_enter" for e in es) and (not ends or ends[0] > exit_ret):
+                    out.append(("worker-left-running", f"worker wid={es[0].get('wid')} pid={pid} had not finished end() "
+                                f"when the pool context was left (end_exit "
+                                f"{'never logged' if not ends else 'at seq %d > exit at seq %d' % (ends[0], exit_ret)})"))
         for note in result.get("notes", []):
             alive = note.get("alive_after_exit")
             if alive:
@@ -802,7 +825,7 @@ def sweep_sites(dry_result, prefixes):
     for role, qn, rel, n in dry_result.get("occ") or []:
         if any(qn.startswith(p) for p in prefixes):
             sites.append((role, qn, rel, n))
-    return sorted(sites)
+    return sorted(sites, key=lambda x: (x[0], x[1], str(x[2])))
 
 
 def worker_sites(qualnames=("BaseFunctorWorker.run",)):
